@@ -355,6 +355,10 @@ func (ci *cidx) mkBounded(fn *ssa.Function, keyOverride string, level int) func(
 							if bo, ok := f.Cond.(*ssa.BinOp); ok && ((bo.Op == token.LSS && f.Truth && isLenLike(bo.Y)) || (bo.Op == token.GEQ && !f.Truth && isLenLike(bo.Y)) || (bo.Op == token.GTR && f.Truth && isLenLike(bo.X))) {
 								return true
 							}
+							// a counter was found at or below this very value (i <= last): it is not negative
+							if bo, ok := f.Cond.(*ssa.BinOp); ok && ((bo.Op == token.LEQ && f.Truth && bo.Y == v) || (bo.Op == token.GTR && !f.Truth && bo.Y == v) || (bo.Op == token.GEQ && f.Truth && bo.X == v)) {
+								return true
+							}
 						}
 					}
 				}
@@ -406,6 +410,12 @@ func (ci *cidx) mkBounded(fn *ssa.Function, keyOverride string, level int) func(
 				// v < bound (or v <= bound for an inclusive position): bound may be the length, or anything that is ≤ the length
 				if okIncl(bound, depth+1, true) {
 					return true
+				}
+				// … such as the length minus a constant (as a bound for v, whether it is negative does not matter)
+				if bb, isBo := bound.(*ssa.BinOp); isBo && bb.Op == token.SUB && isLenLike(bb.X) {
+					if k, isK := intConst(bb.Y); isK && k >= 0 {
+						return true
+					}
 				}
 			}
 			return false
